@@ -238,7 +238,7 @@ func genRequestOf(t *rapid.T, m *model, op, label string) (step, bool) {
 }
 
 func genChangeStep(t *rapid.T, m *model, label string) ([]step, bool) {
-	ops := []string{"move", "move", "move", "move_coord", "move_controller", "create", "create", "delete", "add_broker", "remove_broker"}
+	ops := []string{"move", "move", "move", "move_coord", "move_controller", "create", "create", "delete", "add_broker", "remove_broker", "move_port"}
 	op := rapid.SampledFrom(ops).Draw(t, label+"op")
 	return genChangeOf(t, m, op, label)
 }
@@ -317,6 +317,20 @@ func genChangeOf(t *rapid.T, m *model, op, label string) ([]step, bool) {
 			out = append(out, step{Op: "move", Topic: topic, Parts: []int32{int32(p)}, To: id})
 		}
 		return out, true
+	case "move_port":
+		// a broker keeps its id and host and comes back on another port
+		var c []int32
+		for _, id := range m.live {
+			if !m.bootstrap[id] {
+				c = append(c, id)
+			}
+		}
+		if len(c) == 0 {
+			return nil, false
+		}
+		id := rapid.SampledFrom(c).Draw(t, label+"id")
+		m.dirty = true
+		return []step{{Op: "move_port", Broker: &brokerSpec{ID: id}, N: rapid.IntRange(9093, 9099).Draw(t, label+"port")}}, true
 	case "remove_broker":
 		var c []int32
 		for _, id := range m.live {
@@ -442,6 +456,11 @@ func genCase(t *rapid.T, stratum int) routeCase {
 	}
 
 	add := func(s ...step) { c.Steps = append(c.Steps, s...) }
+	if rapid.IntRange(0, 11).Draw(t, "bootstrapDown") == 0 {
+		// the cluster is unreachable when the transport is first used: its first refresh fails, later ones succeed
+		c.BootstrapDown = true
+		add(step{Op: "sleep", N: rapid.IntRange(1, 150).Draw(t, "downMs")}, step{Op: "bootstrap_up"}, step{Op: "await"})
+	}
 	req := func(op, label string) {
 		if s, ok := genRequestOf(t, m, op, label); ok {
 			add(s)
